@@ -9,7 +9,9 @@ lowering pass does; none depends on names, positions or on what the program comp
   flip   `if not c: A else: B` -> `if c: B else: A`; likewise `!=`/`is not`/`not in` tests with both arms present
          (orelse must not be an `elif` chain)
   early  `if c: A else: B` where A always ends in return / raise / continue / break -> `if c: A` followed by B
-  temp   a local bound once, by a plain assignment, and read exactly once, in the statement that follows the
+  names  every function's locals are renamed to the names of the reference tree (sa/names.py), new use-once temporaries
+         are substituted away
+  temp   (not active; `names` applies it to new temporaries only) a local bound once, by a plain assignment, and read exactly once, in the statement that follows the
          assignment (in the part of it that is evaluated once), is substituted and the assignment dropped
          (`res = f(x); return res` -> `return f(x)`)
 
@@ -20,7 +22,7 @@ from __future__ import annotations
 import ast
 import os
 
-ACTIVE = ("doc", "ann", "cmp", "flip", "early")  # "temp" is implemented but not switched on yet (rules still name today's temporaries)
+ACTIVE = ("doc", "ann", "cmp", "flip", "early", "names")  # "temp" is implemented but not switched on yet (rules still name today's temporaries)
 
 
 def _active():
@@ -231,7 +233,7 @@ def _uses_in(e, name, deferred=False):
     return direct, later
 
 
-def _temp_function(fn):
+def _temp_function(fn, only=None):
     # names bound / read in the whole function (incl. nested scopes: a nested use blocks the rewrite)
     changed = True
     while changed:
@@ -258,6 +260,8 @@ def _temp_function(fn):
                 if not (isinstance(s, ast.Assign) and len(s.targets) == 1 and isinstance(s.targets[0], ast.Name)):
                     continue
                 x = s.targets[0].id
+                if only is not None and not only(x):
+                    continue
                 if x in params or len(stores.get(x, [])) != 1 or len(loads.get(x, [])) != 1:
                     continue
                 if any(isinstance(y, (ast.Yield, ast.YieldFrom, ast.Await, ast.NamedExpr)) for y in ast.walk(s.value)):
@@ -323,7 +327,7 @@ def _temp(tree):
 
 # ---------------------------------------------------------------- entry
 
-def normalise(tree: ast.Module) -> ast.Module:
+def normalise(tree: ast.Module, modname: str = "") -> ast.Module:
     act = _active()
     if "cmp" in act:
         tree = _Cmp().visit(tree)
@@ -335,6 +339,15 @@ def normalise(tree: ast.Module) -> ast.Module:
         _rewrite_blocks(tree, _flip)
     if "early" in act:
         _rewrite_blocks(tree, _early)
+    if "names" in act and modname:
+        from . import names
+        for _ in range(3):
+            st = {}
+            names.translate_module(tree, modname, st)
+            before = ast.dump(tree)
+            names.inline_new_temporaries(tree)
+            if ast.dump(tree) == before:
+                break
     if "temp" in act:
         _temp(tree)
     ast.fix_missing_locations(tree)
